@@ -692,6 +692,53 @@ value_t report_t::fn_quantity(call_scope_t& args)
   return args.get<amount_t>(0).number();
 }
 
+#if defined(LEDGER_VERIF)
+value_t report_t::fn_verif_rational(call_scope_t& args)
+{
+  // Verification hook: the exact stored value, type-tagged, with balances
+  // listed in lexicographic order of their rendered components.
+  std::ostringstream out;
+  if (args.size() == 0) {
+    out << "N";
+    return string_value(out.str());
+  }
+  const value_t& val(args[0]);
+  switch (val.type()) {
+  case value_t::VOID:
+    out << "N";
+    break;
+  case value_t::BOOLEAN:
+    out << "T:" << (val.as_boolean() ? "true" : "false");
+    break;
+  case value_t::INTEGER:
+    out << "I:" << val.as_long();
+    break;
+  case value_t::AMOUNT:
+    out << "A:" << val.as_amount().verif_rational();
+    break;
+  case value_t::BALANCE: {
+    std::vector<string> parts;
+    foreach (const balance_t::amounts_map::value_type& pair,
+             val.as_balance().amounts)
+      parts.push_back(pair.second.verif_rational());
+    std::sort(parts.begin(), parts.end());
+    out << "B:";
+    bool first = true;
+    foreach (const string& part, parts) {
+      if (! first) out << ';';
+      first = false;
+      out << part;
+    }
+    break;
+  }
+  default:
+    out << "V:" << val.label() << ':' << val.to_string();
+    break;
+  }
+  return string_value(out.str());
+}
+#endif
+
 value_t report_t::fn_floor(call_scope_t& args)
 {
   return args[0].floored();
@@ -1577,6 +1624,10 @@ expr_t::ptr_op_t report_t::lookup(const symbol_t::kind_t kind,
     case 'v':
       if (is_eq(p, "value_date"))
         return MAKE_FUNCTOR(report_t::fn_now);
+#if defined(LEDGER_VERIF)
+      else if (is_eq(p, "verif_rational"))
+        return MAKE_FUNCTOR(report_t::fn_verif_rational);
+#endif
       break;
 
     case 'w':
